@@ -1,19 +1,96 @@
 /-
-C03 — text InputSplit: parts deliver every non-empty line exactly once.
-Property theorems only; definitions in DmlcModel/Split/{Model,Spec}.lean, lemmas in DmlcModel/Split/*Lemmas.lean.
+C03 — text InputSplit: the parts of an `n`-way split deliver every non-empty line exactly once.
+Property theorems only; definitions in DmlcModel/Split/{Model,Spec}.lean (`partBlobs`, `linesOf`, `lines`,
+`canon`, `rangeStream`), boundaries `bndT` in DmlcModel/Split/SnapText.lean, lemmas in DmlcModel/Split/*.lean
+(assembled in DmlcModel/Split/CoverText.lean).
+
+Common hypotheses: a non-empty list of non-empty, NUL-free files of less than 2^55 bytes in all, `1 ≤ n < 2^32`
+parts (`0 < n` follows from `k < n` in the per-part statements), a buffer of `w < 2^56` words (any `w`, `0`
+included: `Chunk::Load` sizes its buffer `w + 1` words), any `kBufferSize` `dw`, any choice `pick` of
+`NextRecord` (`true`) / `NextChunk` (`false`) per call.
 -/
-import DmlcModel.Split.Spec
+import DmlcModel.Split.CoverText
 
 namespace DmlcModel.Props.C03
 open DmlcModel DmlcModel.Split
 
-/-- **C03, full statement** (kept visible; see `CONFIG['partial']`): for every list of non-empty NUL-free files,
-every `n ≥ 1`, every buffer size `w ≥ 1` and every way of mixing `NextRecord` / `NextChunk`, the parts
-`0..n-1` deliver without error, and their canonical lines concatenate to the non-empty lines of the files. -/
-def C03_parts_cover_statement : Prop :=
-  ∀ (files : List Bytes) (n w dw : Nat) (pick : Nat → Nat → Bool),
-    files ≠ [] → (∀ f ∈ files, f ≠ [] ∧ NulFree f) → totalSize files < 2 ^ 56 → 0 < n → n < 2 ^ 32 → 0 < w → w < 2 ^ 56 →
+/-- the stream of one part: part `k` ends without an abnormal outcome, and the canonical lines of what it
+delivers are the lines of the byte range between its two boundaries -/
+theorem C03_part_lines (files : List Bytes) (n w dw : Nat) (hfiles : files ≠ [])
+    (hne : ∀ f ∈ files, f ≠ [] ∧ NulFree f) (ht : totalSize files < 2^55) (hn : n < 2^32)
+    (hw : w < 2^56) (k : Nat) (hk : k < n) (pick : Nat → Bool) :
+    ∃ bs, partBlobs Fmt.text files k n w dw pick = .ok bs ∧
+          bs.flatMap canon = lines (rangeStream true files (bndT files n k) (bndT files n (k + 1))) := by
+  obtain ⟨bs, h1, h2, _⟩ := part_text files k n w dw hfiles hne ht hk hn hw pick
+  exact ⟨bs, h1, h2⟩
+
+/-- no part raises an abnormal outcome (`check`, `oob`, `uninit`, `div`, `fuel`) -/
+theorem C03_no_error (files : List Bytes) (n w dw : Nat) (hfiles : files ≠ [])
+    (hne : ∀ f ∈ files, f ≠ [] ∧ NulFree f) (ht : totalSize files < 2^55) (hn : n < 2^32)
+    (hw : w < 2^56) (k : Nat) (hk : k < n) (pick : Nat → Bool) :
+    ∃ bs, partBlobs Fmt.text files k n w dw pick = .ok bs := by
+  obtain ⟨bs, h1, _⟩ := part_text files k n w dw hfiles hne ht hk hn hw pick
+  exact ⟨bs, h1⟩
+
+/-- MAIN: no part fails, and the parts' canonical lines concatenate to the non-empty lines of the files, in
+order, each exactly once (any mix of `NextRecord` / `NextChunk` per part) -/
+theorem C03_parts_cover (files : List Bytes) (n w dw : Nat) (hfiles : files ≠ [])
+    (hne : ∀ f ∈ files, f ≠ [] ∧ NulFree f) (ht : totalSize files < 2^55) (hn0 : 0 < n) (hn : n < 2^32)
+    (hw : w < 2^56) (pick : Nat → Nat → Bool) :
     (∀ k, k < n → ∃ bs, partBlobs Fmt.text files k n w dw (pick k) = .ok bs) ∧
-    (List.range n).flatMap (fun k => linesOf (partBlobs Fmt.text files k n w dw (pick k))) = files.flatMap lines
+    (List.range n).flatMap (fun k => linesOf (partBlobs Fmt.text files k n w dw (pick k)))
+      = files.flatMap lines :=
+  ⟨fun k hk => C03_no_error files n w dw hfiles hne ht hn hw k hk (pick k),
+   parts_cover_text files n w dw hfiles hne ht hn0 hn hw pick⟩
+
+/-- a chunk never ends in the middle of a line: every blob delivered by a `NextChunk` call is non-empty and
+ends in an EOL byte (and no blob of either kind is empty) -/
+theorem C03_chunk_ends_at_eol (files : List Bytes) (n w dw : Nat) (hfiles : files ≠ [])
+    (hne : ∀ f ∈ files, f ≠ [] ∧ NulFree f) (ht : totalSize files < 2^55) (hn : n < 2^32)
+    (hw : w < 2^56) (k : Nat) (hk : k < n) (pick : Nat → Bool) (bs : List Bytes)
+    (h : partBlobs Fmt.text files k n w dw pick = .ok bs) (i : Nat) (b : Bytes) (hb : bs[i]? = some b) :
+    b ≠ [] ∧ (pick i = false → ∃ a e, b = a ++ [e] ∧ isEol e = true) := by
+  obtain ⟨bs', h1, _, h3⟩ := part_text files k n w dw hfiles hne ht hk hn hw pick
+  rw [h] at h1
+  injection h1 with h1
+  subst h1
+  obtain ⟨g1, g2⟩ := h3 i b hb
+  refine ⟨g1, fun hp => ?_⟩
+  rcases g2 hp with g | g
+  · exact absurd g g1
+  · exact g
+
+/-- the canonical lines of a part do not depend on the buffer size, the default buffer size, or the
+consumption mode -/
+theorem C03_buffer_independent (files : List Bytes) (n w dw : Nat) (hfiles : files ≠ [])
+    (hne : ∀ f ∈ files, f ≠ [] ∧ NulFree f) (ht : totalSize files < 2^55) (hn : n < 2^32)
+    (hw : w < 2^56) (w' dw' : Nat) (hw' : w' < 2^56) (k : Nat) (hk : k < n) (pick pick' : Nat → Bool) :
+    linesOf (partBlobs Fmt.text files k n w dw pick) = linesOf (partBlobs Fmt.text files k n w' dw' pick') := by
+  rw [linesOf_part_text files k n w dw hfiles hne ht hk hn hw pick,
+    linesOf_part_text files k n w' dw' hfiles hne ht hk hn hw' pick']
+
+/-- the doubling loop of `Chunk::Load` always terminates within the model's iteration bound, and `Load`
+raises no abnormal outcome, from every state that satisfies the invariant `TInv` of a bare text split
+(which the constructed state satisfies: `C03_initial_invariant`, and every call preserves) -/
+theorem C03_load_terminates (s : Base) (c : Chunk) (hinv : TInv s) : ∃ r, load Fmt.text s c = .ok r :=
+  load_text_total_any s c hinv
+
+/-- the state `Init` + `ResetPartition(k, n)` construct satisfies the invariant, and what it still has to
+deliver is the stream of the byte range between the two boundaries of part `k` -/
+theorem C03_initial_invariant (files : List Bytes) (n w dw : Nat) (hfiles : files ≠ [])
+    (hne : ∀ f ∈ files, f ≠ [] ∧ NulFree f) (ht : totalSize files < 2^55) (hn : n < 2^32)
+    (hw : w < 2^56) (k : Nat) (hk : k < n) :
+    ∃ s, mkSt Fmt.text files k n w false dw = .ok s ∧ s.wrap = none ∧ TInv s.base ∧
+      tailT s.base = rangeStream true files (bndT files n k) (bndT files n (k + 1)) :=
+  mkSt_text_inv files k n w dw hfiles hne ht hk hn hw
+
+/-- the boundaries run from `0` to the total size, are monotone, and each is a position where the stream may
+be cut without cutting a line (a file boundary, or right after an EOL byte and right before a non-EOL byte) -/
+theorem C03_boundaries (files : List Bytes) (n : Nat) (hne : ∀ f ∈ files, f ≠ []) (ht : totalSize files < 2^55)
+    (hn0 : 0 < n) (hn : n < 2^32) :
+    bndT files n 0 = 0 ∧ bndT files n n = totalSize files ∧
+    (∀ i j, i ≤ j → bndT files n i ≤ bndT files n j) ∧ (∀ j, IsCut files (bndT files n j)) :=
+  ⟨bndT_zero files n, bndT_last files n hne (by omega) hn0 hn,
+   fun i j h => bndT_mono files n i j hne h, fun j => bndT_isCut files n j hne⟩
 
 end DmlcModel.Props.C03
